@@ -127,6 +127,12 @@ Proof.
   split; [reflexivity|]. split; [reflexivity|]. split; [eexists _, _; split; reflexivity|apply ex_select_parse].
 Qed.
 
+Example C03_select_lock_nonvacuous :
+  select_ok ex_select_lock = true /\ select_bare_alias_free ex_select_lock = true
+  /\ parse_statement_top tree_flags (render_select (fun _ _ => no_parens) ex_select_lock ++ [Tk TyEOF ""%string])
+     = Val (GSelectS (ast_of_select ex_select_lock), [Tk TyEOF ""%string]).
+Proof. split; [reflexivity|]. split; [reflexivity|apply ex_select_lock_parse]. Qed.
+
 Example C03_stmt_merge_nonvacuous :
   stmt_ok ex_stmt_merge = true
   /\ parse_statement_top tree_flags (render_stmt (fun _ _ => no_parens) ex_stmt_merge ++ [Tk TyEOF ""%string])
